@@ -47,10 +47,16 @@ def is_memory_handle(fn, c, operand):
     return handle_class(fn, operand) in ('M', 'P')
 
 
+# handles of other files (never the memory file): feature parallel_segments keeps a manifest log in a sidecar (see C19)
+OTHER_FILE_FIELDS = {('ManifestWal', 'file')}
+
+
 def handle_class(fn, operand):
     sl = lib.slice_back(fn, [operand], through_calls=True)
     if sl.fields & M_FIELDS:
         return 'M'
+    if sl.fields & OTHER_FILE_FIELDS:
+        return 'O'
     if any(c.is_(OPEN_PATS) for c in sl.calls):
         return 'O'
     if sl.args:
